@@ -16,6 +16,7 @@ import (
 	"os"
 	"os/exec"
 	"path/filepath"
+	"regexp"
 	"runtime/debug"
 	"sort"
 	"strconv"
@@ -70,6 +71,8 @@ func main() {
 		os.Exit(replay(p, os.Args[3:]))
 	case "one":
 		one(p, os.Args[3:])
+	case "fuzzone":
+		fuzzone(p, os.Args[3:])
 	default:
 		fmt.Fprintln(os.Stderr, "unknown command")
 		os.Exit(2)
@@ -96,7 +99,11 @@ func worker(p *props.Prop, args []string) {
 	debug.SetMaxStack(512 << 20)
 	c := core.NewCtx(p.ID, *tier, *seed, *shard, *nshards, *work, repoDir())
 	c.StartWatchdog()
-	p.Run(c)
+	if os.Getenv("VERIF_ONLYFUZZ") != "1" { // (validation of the coverage-guided stages alone)
+		p.Run(c)
+	}
+	c.End()
+	props.CovReplay(c, p.ID)
 	c.End()
 	s := c.Finish()
 	f, err := os.Create(filepath.Join(*work, fmt.Sprintf("w%d.json", *shard)))
@@ -128,7 +135,12 @@ func one(p *props.Prop, args []string) {
 	c := core.NewCtx(p.ID, "quick", envSeed(), 0, 1, "", repoDir())
 	v := &core.Violation{Property: p.ID, Config: args[0], Input: in, Class: "isolated"}
 	bad, detail := false, ""
-	if p.Replay != nil {
+	if strings.HasPrefix(args[0], "cov:") {
+		// a case of the distilled-corpus stage: the configuration is chosen by the selector
+		sel, _ := strconv.Atoi(strings.TrimPrefix(args[0], "cov:"))
+		r := props.FuzzOne(p.ID, uint16(sel), in)
+		bad, detail = r.Bad, r.Config+" "+r.Class+" "+r.Locus
+	} else if p.Replay != nil {
 		bad, detail = p.Replay(c, v)
 	}
 	var ru syscall.Rusage
@@ -138,6 +150,123 @@ func one(p *props.Prop, args []string) {
 	if bad {
 		os.Exit(1)
 	}
+}
+
+// fuzzRecord is what the fuzz target (harness/fz) leaves behind for a rejected or hanging execution.
+type fuzzRecord struct {
+	Sel    uint16            `json:"sel"`
+	Data   []byte            `json:"data"`
+	Result *props.FuzzResult `json:"result,omitempty"`
+	Hang   bool              `json:"hang,omitempty"`
+}
+
+// fuzzone re-evaluates one recorded coverage-guided case in this fresh process and prints the verdict as JSON.
+func fuzzone(p *props.Prop, args []string) {
+	if len(args) < 1 {
+		os.Exit(2)
+	}
+	b, err := os.ReadFile(args[0])
+	var rec fuzzRecord
+	if err != nil || json.Unmarshal(b, &rec) != nil {
+		os.Exit(2)
+	}
+	syscall.Setrlimit(syscall.RLIMIT_CPU, &syscall.Rlimit{Cur: 150, Max: 155})
+	debug.SetMaxStack(512 << 20)
+	r := props.FuzzOne(p.ID, rec.Sel, rec.Data)
+	out, _ := json.Marshal(r)
+	fmt.Printf("FUZZONE %s\n", out)
+}
+
+var reFuzzLine = regexp.MustCompile(`execs: ([0-9]+) .*new interesting: ([0-9]+) \(total: ([0-9]+)\)`)
+
+// fuzzStage runs Go's coverage-guided engine over the property's per-case oracle for a fixed number of executions.
+// It only adds executions; every rejected case is confirmed in a fresh process before it is reported.
+func fuzzStage(p *props.Prop, self, work, tier string, seed int64, m *props.Merged) (viols []*core.Violation, notes []string) {
+	if !props.FuzzServes(p.ID) || os.Getenv("VERIF_NOFUZZ") == "1" {
+		return
+	}
+	bin := filepath.Join(outDir(), "bin", "fz.test")
+	if _, err := os.Stat(bin); err != nil {
+		notes = append(notes, "coverage-guided stage skipped: "+bin+" was not built")
+		return
+	}
+	execs := int64(150000)
+	if tier == "thorough" {
+		execs = 30000000
+	}
+	if s := os.Getenv("VERIF_FUZZ_EXECS"); s != "" {
+		if v, err := strconv.ParseInt(s, 10, 64); err == nil && v > 0 {
+			execs = v
+		}
+	}
+	dir := filepath.Join(work, "fuzz")
+	os.MkdirAll(dir, 0o755)
+	cache := filepath.Join(outDir(), "work", "fuzzcache", p.ID)
+	os.MkdirAll(cache, 0o755)
+	outp := filepath.Join(dir, "fuzz.out")
+	of, _ := os.Create(outp)
+	lim := "900"
+	if tier == "thorough" {
+		lim = "14400"
+	}
+	cmd := exec.Command("timeout", "-s", "KILL", lim, bin, "-test.run", "^$", "-test.fuzz", "^FuzzProp$", "-test.fuzzcachedir", cache,
+		"-test.fuzztime", fmt.Sprintf("%dx", execs), "-test.fuzzminimizetime", "10s", "-test.parallel", "16")
+	cmd.Dir = dir
+	cmd.Stdout = of
+	cmd.Stderr = of
+	cmd.Env = append(os.Environ(), "VERIF_FUZZ_PROP="+p.ID, "VERIF_FUZZ_OUT="+dir, "VERIF_REPO="+repoDir())
+	_ = cmd.Run()
+	of.Close()
+	ob, _ := os.ReadFile(outp)
+	if ms := reFuzzLine.FindAllSubmatch(ob, -1); len(ms) > 0 {
+		last := ms[len(ms)-1]
+		n, _ := strconv.ParseInt(string(last[1]), 10, 64)
+		ni, _ := strconv.ParseInt(string(last[2]), 10, 64)
+		tot, _ := strconv.ParseInt(string(last[3]), 10, 64)
+		m.Counters["coverage_guided_execs"] = n
+		m.Counters["coverage_guided_new_interesting"] = ni
+		m.Counters["coverage_guided_corpus_total"] = tot
+		m.Evals += n
+	} else {
+		notes = append(notes, "coverage-guided stage produced no progress line: "+firstLine(tailOf(outp, 6)))
+	}
+	recs, _ := filepath.Glob(filepath.Join(dir, "*.json"))
+	sort.Strings(recs)
+	for i, rp := range recs {
+		b, err := os.ReadFile(rp)
+		var rec fuzzRecord
+		if err != nil || json.Unmarshal(b, &rec) != nil {
+			continue
+		}
+		if rec.Hang {
+			cfgName := "cov:" + fmt.Sprint(rec.Sel)
+			if v := confirmCrash(p, self, work, 900+i, cfgName, rec.Data, 7, "coverage-guided worker: case still running after 60 s", seed, tier); v != nil {
+				viols = append(viols, v)
+			} else {
+				notes = append(notes, fmt.Sprintf("a coverage-guided case ran for 60 s of wall time but the isolated replay stayed below the CPU limit (load): %q", trunc(rec.Data, 80)))
+			}
+			continue
+		}
+		// confirm in a fresh process
+		cb, _ := exec.Command(self, "fuzzone", p.ID, rp).CombinedOutput()
+		line := grepLine(string(cb), "FUZZONE ")
+		var r props.FuzzResult
+		if line == "" || json.Unmarshal([]byte(strings.TrimPrefix(line, "FUZZONE ")), &r) != nil {
+			notes = append(notes, "a coverage-guided case could not be re-evaluated: "+rp+": "+firstLine(string(cb)))
+			continue
+		}
+		if !r.Bad {
+			notes = append(notes, "a coverage-guided case was rejected in the fuzz worker but not in a fresh process (state-dependent?): "+rp)
+			continue
+		}
+		q := fmt.Sprintf("%q", r.Input)
+		if len(q) > 600 {
+			q = q[:600] + "…"
+		}
+		viols = append(viols, &core.Violation{Property: p.ID, Class: r.Class, Locus: r.Locus, Config: r.Config, Input: r.Input, InputQ: q,
+			Detail: "found by the coverage-guided stage (selector " + fmt.Sprint(rec.Sel) + ")\n" + r.Detail, Script: r.Script, Seed: seed, Tier: tier, Count: 1})
+	}
+	return
 }
 
 func replay(p *props.Prop, args []string) int {
@@ -333,6 +462,8 @@ func run(p *props.Prop, args []string) int {
 	if p.Post != nil {
 		viols = append(viols, p.Post(work, m)...)
 	}
+	fv, fnotes := fuzzStage(p, self, work, *tier, seed, m)
+	viols = append(viols, fv...)
 
 	// group violations
 	groups := map[string]*core.Violation{}
@@ -476,6 +607,9 @@ func run(p *props.Prop, args []string) int {
 
 	for _, l := range lines {
 		fmt.Println(l)
+	}
+	for _, n := range fnotes {
+		fmt.Printf("NOTE: %s\n", n)
 	}
 	for _, r := range inconclusive {
 		if exit == 2 {
